@@ -99,7 +99,9 @@ def run_shard(spec, emit):
                 name, code, _ = eng.exc_info(r)
                 import re
                 m = re.search(r"(Binder|Parser|Catalog|Conversion) Error", str(r))
-                emit({"v": "viol", "b": b, "mech": f"{where}/accepted-script-fails-at-execution/{name}{':' + m.group(0) if m else ''}",
+                # structures that cannot even be loaded fail the same way whatever the script does; elsewhere the script matters
+                fam = "" if where in ("same-dataset-measures", "same-dataset-identifiers", "measure-vs-attribute") else family + "/"
+                emit({"v": "viol", "b": b, "mech": f"{where}/{fam}accepted-script-fails-at-execution/{name}{':' + m.group(0) if m else ''}",
                       "what": f"{script} (semantic_analysis accepts it): {name} {code}: {str(r)[:200]}", "case": case})
                 continue
             probs = []
